@@ -86,6 +86,9 @@ class TypeChecker:
                 self.check_type(struct_member.typ, first=False)
                 struct_member.offset = offset
                 offset = offset + self.context.size_of(struct_member.typ)
+            # Only types which are being expanded form a recursion, the
+            # same struct type may occur more than once:
+            self.got_types.discard(typ)
         elif isinstance(typ, ast.ArrayType):
             self.check_type(typ.element_type, first=False)
         elif isinstance(typ, ast.DefinedType):
